@@ -6,7 +6,7 @@ from ..engines import uijson
 class C14(Check):
     pid = "C14"
     level = "exploration"
-    budgets = {"quick": (120, 16), "thorough": (2000, 16)}
+    budgets = {"quick": (120, 16), "thorough": (1800, 16)}
     ops_key = "forms"
     rule = (
         "A program = workspace spec (1-3 Points/Curve objects with float/int/text data and property groups of "
@@ -44,6 +44,13 @@ class C14(Check):
                               and (stats["disabled_forms"] >= 1 or optional_forms >= 1) and not res.fails)
         if stats["roundtrip"]:
             res.label("roundtrip-done")
+        res.label("forms:" + ("1-2" if stats["forms"] < 3 else "3-5" if stats["forms"] < 6 else "6-10"))
+        if stats["entity_forms"]:
+            res.label("has-enabled-entity-form")
+        if stats["disabled_forms"]:
+            res.label("has-disabled-form")
+        if res.nontrivial:
+            res.label("nontrivial")
         res.info.update({"forms": stats["forms"], "kinds": sorted(stats["kinds"])})
         return res
 
